@@ -10,9 +10,21 @@ import (
 var alnumOrDashRegexp = regexp.MustCompile("[^a-z_0-9-]+")
 
 func GetIndividuals(document *gedcom.Document, placesMap map[string]*place) map[string]*gedcom.IndividualNode {
+	return getVisibleIndividuals(document, LivingVisibilityShow, placesMap)
+}
+
+// getVisibleIndividuals returns the individuals that have a page, by the unique
+// key of their page. Living individuals only have a page when they are shown.
+// They must not take part otherwise because their names would decide the keys
+// of other individuals with the same name.
+func getVisibleIndividuals(document *gedcom.Document, visibility LivingVisibility, placesMap map[string]*place) map[string]*gedcom.IndividualNode {
 	individualMap := map[string]*gedcom.IndividualNode{}
 
 	for _, individual := range document.Individuals() {
+		if visibility != LivingVisibilityShow && individual.IsLiving() {
+			continue
+		}
+
 		name := individual.Name().String()
 
 		key := getUniqueKey(individualMap, alnumOrDashRegexp.
